@@ -192,6 +192,9 @@ def write_runs(filler_ctx, desc: dict, runs: list, delay_s: float = 0.0) -> None
         bad_at = run[3] if len(run) > 3 else None
         if isinstance(meta, SharedMeta):
             meta = meta.apply()
+        if not ids and bad_at is not None:
+            # a run that consists of one refused write only
+            attempt_rejected_write(filler_ctx, desc, split, meta, bad_at)
         for pos, ex_id in enumerate(ids):
             if bad_at is not None and pos == bad_at % max(len(ids), 1):
                 attempt_rejected_write(filler_ctx, desc, split, meta, bad_at)
@@ -241,14 +244,27 @@ def feed_writer(dataset_filler, spec: dict):
     return {"writer": spec["writer"], "n": sum(len(r[1]) for r in spec["runs"])}
 
 
-def filler_session(dataset, desc: dict, runs: list, subdir: str | None = None):
+class UserAbort(Exception):
+    """Raised by the caller's own code inside the filler's with-block."""
+
+
+def filler_session(dataset, desc: dict, runs: list, subdir: str | None = None,
+                   abort: bool = False):
+    """abort=True: after the writes the with-body raises an exception of the
+    caller (which the caller handles outside)."""
     from sedpack.io.dataset_filler import DatasetFiller
     if subdir is None:
         filler = dataset.filler()
     else:
         filler = DatasetFiller(dataset, relative_path_from_split=Path(subdir))
-    with filler as ctx:
-        write_runs(ctx, desc, runs)
+    try:
+        with filler as ctx:
+            write_runs(ctx, desc, runs)
+            if abort:
+                raise UserAbort("the caller's code failed")
+    except UserAbort:
+        if not abort:
+            raise
 
 
 def multi_session(dataset,
